@@ -52,6 +52,9 @@ fn trip<T: Serialize + DeserializeOwned + PartialEq>(v: &T, fmt: SerializationFo
     let dir = std::path::Path::new("/verif/work/c18/tmp");
     std::fs::create_dir_all(dir).unwrap();
     let path = dir.join(format!("t{}.{}", std::process::id(), ext));
+    // The target of `save` may already exist (saving a library again after an edit): it starts out holding an
+    // older, LONGER copy, so a `save` that does not replace the whole file leaves a tail behind.
+    std::fs::write(&path, format!("{}\n{}\n", text, text)).unwrap();
     let (file_eq, file_bits) = match fmt.save(v, &path) {
         Err(e) => return json!({"save_err": e.to_string()}),
         Ok(()) => match fmt.open::<T>(&path) {
